@@ -23,6 +23,11 @@ for p in patches:
                 st = r['status']
                 if st == 'fail' and all(fl['labels'] and all(l in known for l in fl['labels']) for fl in r.get('failures', [])):
                     st = 'ok(known)'
+                if st == 'fail' and r.get('degraded'):
+                    # the check's policy (DESIGN 0.2, degraded anchors): proof splices lost -> a failing obligation is reported only with a
+                    # concrete witness from the replay engine, otherwise the unit is undecided (exit 2)
+                    st = 'undecided'
+                    r['reason'] = 'annotation anchors lost (%s): failing obligations are not reported without a witness' % '; '.join(r['degraded'])[:120]
                 res['vx'][r['unit']] = st if st in ('ok', 'ok(known)') else (st + ': ' + (r.get('reason') or ', '.join(sorted(set(l for fl in r.get('failures', []) for l in (fl['labels'] or [fl['function'] + '.body-safety'])))))[:160])
         for k in kx.run_units(list(registry.KX.values())):
             res['kx'][k['name']] = k['status'] + ((': ' + k.get('reason', '')[:100]) if k['status'] != 'ok' else '')
